@@ -451,7 +451,7 @@ pub fn run(ctx: &Ctx, which: u8) -> (Spec, Report) {
                 }
                 let def = defs[0];
                 // ---- field keys -----------------------------------------------------------------
-                let mut check_fields = |owner: &str, ffields: &[crate::ir::Field], mfields: &[WField], truth_obj: Option<&serde_json::Map<String, Value>>, rule: &Option<String>, container: &str, rep: &mut Report| {
+                let check_fields = |owner: &str, ffields: &[crate::ir::Field], mfields: &[WField], truth_obj: Option<&serde_json::Map<String, Value>>, rule: &Option<String>, container: &str, rep: &mut Report| {
                     let Some(tobj) = truth_obj else {
                         rep.inconclusive("oracle-shape", json!({"owner": owner}));
                         return;
